@@ -563,9 +563,13 @@ that the operations of the package nevertheless behave as the pure functions of
 sequences on live values, all values re-read after every operation (clause `immutable`). -/
 
 open XmppModel.JidHeap in
-/-- regenerated fact: every function of `jid.go`/`unsafe.go` that writes through `append`,
-`copy` or a transformer's `Append` writes only into a slice it made itself; in particular
-`WithResource` copies the bare window first — the flag of the heap model -/
+/-- regenerated fact (since round D a *probe*: the real operations are run on live values -
+root, `Bare`, `Domain`, `Bare.Domain`, `Copy`, `WithResource("")` of six roots, arguments empty /
+shorter / equal length / longer / shrinking under PRECIS - and the root's backing array is
+compared up to its capacity before and after, by reflection on the only byte-slice field of
+`jid.JID`; constructors are called twice and must return disjoint memory): every operation that
+builds a value leaves every existing array untouched; in particular `WithResource` does not
+write into the bare window's spare capacity — the flag of the heap model -/
 theorem C11_gen_writes_on_fresh :
     Generated.C11.writesOnFresh = some [("New", true), ("NewUnsafe", true), ("WithDomain", true),
       ("WithLocal", true), ("WithResource", true)] ∧
@@ -665,5 +669,22 @@ theorem C11_alias_without_copy :
       (st.vals.map (view st.heap)) = [⟨[0x61, 0x62, 0x63, 0x64], 1, 1⟩] ∧
       (st.vals.map (view st'.heap)) = [⟨[0x61, 0x62, 0x78, 0x64], 1, 1⟩] :=
   ⟨_, _, rfl, rfl, rfl, rfl⟩
+
+/-! ### `MustParse` (round D): the same addresses as `Parse`, a panic exactly where `Parse` fails -/
+
+theorem C11_mustParse_agree (N : Norm) (s : Bytes) (j : Jid) :
+    mustParse N s = some j ↔ parse N s = .ok j := by
+  unfold mustParse
+  split <;> simp_all
+
+theorem C11_mustParse_panics_iff (N : Norm) (s : Bytes) :
+    mustParse N s = none ↔ ∃ e, parse N s = .error e := by
+  unfold mustParse
+  split <;> simp_all
+
+/-- every address `MustParse` returns is canonical, too -/
+theorem C11_mustParse_canonical {N : Norm} (g : N.Good) {s : Bytes} {j : Jid}
+    (h : mustParse N s = some j) : mustParse N j.toString = some j :=
+  (C11_mustParse_agree N _ j).mpr (C11_parse_idem g ((C11_mustParse_agree N s j).mp h))
 
 end XmppModel.Props.C11
